@@ -29,6 +29,7 @@ pub mod openssl {
         use vstd::prelude::*;
         use super::error::ErrorStack;
         verus! {
+        pub struct Asn1Integer { pub bits: Ghost<i32> }   // a random serial of that many bits
         pub struct Asn1Time { pub t: Ghost<int> }      // seconds since the epoch
         pub type Asn1TimeRef = Asn1Time;
         // openssl::asn1::TimeDiff { days: c_int, secs: c_int }
@@ -63,7 +64,9 @@ pub mod openssl {
         use super::error::ErrorStack;
         verus! {
         // a non-negative big integer, seen through its minimal big-endian byte string
-        pub struct BigNum { pub be: Ghost<Seq<u8>> }
+        pub struct BigNum { pub be: Ghost<Seq<u8>>, pub rand_bits: Ghost<i32> }
+        pub struct MsbOption { pub x: u8 }
+        impl MsbOption { pub const MAYBE_ZERO: MsbOption = MsbOption { x: 0 }; }
         pub type BigNumRef = BigNum;
         pub struct BigNumContext { pub x: u8 }
         impl BigNumContext { #[verifier::external_body] pub fn new() -> (r: Result<BigNumContext, ErrorStack>) ensures r is Ok { unimplemented!() } }
@@ -76,6 +79,12 @@ pub mod openssl {
         impl BigNum {
             #[verifier::external_body]
             pub fn new() -> (r: Result<BigNum, ErrorStack>) ensures r is Ok { unimplemented!() }
+            #[verifier::external_body]
+            pub fn rand(&mut self, bits: i32, msb: MsbOption, odd: bool) -> (r: Result<(), ErrorStack>)
+                ensures r is Ok ==> final(self).rand_bits@ == bits { unimplemented!() }
+            #[verifier::external_body]
+            pub fn to_asn1_integer(&self) -> (r: Result<super::asn1::Asn1Integer, ErrorStack>)
+                ensures r matches Ok(i) ==> i.bits@ == self.rand_bits@ { unimplemented!() }
             // BN_bn2bin: minimal length, big endian
             #[verifier::external_body]
             pub fn to_vec(&self) -> (r: Vec<u8>) ensures r@ == self.be@ { unimplemented!() }
@@ -210,13 +219,152 @@ pub mod openssl {
         }
         }
     }
+    pub mod stack {
+        use vstd::prelude::*;
+        use super::error::ErrorStack;
+        verus! {
+        pub struct Stack<T> { pub v: Vec<T> }
+        impl<T> Stack<T> {
+            #[verifier::external_body]
+            pub fn new() -> (r: Result<Stack<T>, ErrorStack>) ensures r matches Ok(s) ==> s.v@.len() == 0 { unimplemented!() }
+            #[verifier::external_body]
+            pub fn push(&mut self, t: T) -> (r: Result<(), ErrorStack>) ensures r is Ok ==> final(self).v@ == old(self).v@.push(t) { unimplemented!() }
+        }
+        }
+    }
     pub mod x509 {
         use vstd::prelude::*;
+        use super::error::ErrorStack;
+        use super::nid::Nid;
         verus! {
-        pub struct X509 { pub not_after: super::asn1::Asn1Time }
+        // ---- what a certificate / request builder has been told, as plain ghost data
+        pub ghost enum ExtView {
+            BasicConstraints,
+            San { dns: Seq<Seq<char>>, ip: Seq<Seq<char>> },
+            Custom { name: Seq<char>, value: Seq<char> },
+        }
+        pub ghost struct NameView { pub by_nid: Seq<(Nid, Seq<char>)>, pub by_text: Seq<(Seq<char>, Seq<char>)> }
+        pub ghost struct CertView {
+            pub version: Option<i32>, pub serial_random_bits: Option<i32>,
+            pub subject: Option<NameView>, pub issuer: Option<NameView>,
+            pub pubkey: Option<int>, pub not_before: Option<int>, pub not_after: Option<int>,
+            pub exts: Seq<ExtView>, pub signed: Option<(int, u8)>,
+        }
+        pub open spec fn empty_cert() -> CertView {
+            CertView { version: None, serial_random_bits: None, subject: None, issuer: None, pubkey: None,
+                       not_before: None, not_after: None, exts: Seq::empty(), signed: None }
+        }
+        pub struct X509 { pub not_after: super::asn1::Asn1Time, pub view: Ghost<CertView> }
+        pub struct X509Req { pub view: Ghost<CertView> }
+        pub struct X509Name { pub view: Ghost<NameView> }
+        pub struct X509NameBuilder { pub view: Ghost<NameView> }
+        pub struct X509v3Context { pub x: u8 }
+        pub struct X509Extension { pub view: Ghost<ExtView> }
+        pub struct X509ReqBuilder { pub view: Ghost<CertView> }
+        pub struct X509Builder { pub view: Ghost<CertView> }
         impl X509 {
             #[verifier::external_body]
             pub fn not_after(&self) -> (r: &super::asn1::Asn1TimeRef) ensures *r == self.not_after { unimplemented!() }
+        }
+        impl X509NameBuilder {
+            #[verifier::external_body]
+            pub fn new() -> (r: Result<X509NameBuilder, ErrorStack>)
+                ensures r matches Ok(b) ==> b.view@ == (NameView { by_nid: Seq::empty(), by_text: Seq::empty() }) { unimplemented!() }
+            #[verifier::external_body]
+            pub fn append_entry_by_nid(&mut self, n: Nid, v: &String) -> (r: Result<(), ErrorStack>)
+                ensures r is Ok ==> final(self).view@ == (NameView { by_nid: old(self).view@.by_nid.push((n, v@)), ..old(self).view@ }) { unimplemented!() }
+            #[verifier::external_body]
+            pub fn append_entry_by_text(&mut self, k: &str, v: &str) -> (r: Result<(), ErrorStack>)
+                ensures r is Ok ==> final(self).view@ == (NameView { by_text: old(self).view@.by_text.push((k@, v@)), ..old(self).view@ }) { unimplemented!() }
+            #[verifier::external_body]
+            pub fn build(self) -> (r: X509Name) ensures r.view == self.view { unimplemented!() }
+        }
+        impl X509Extension {
+            // X509V3_EXT_nconf(name, value): an extension given as `name` = `value` configuration text
+            #[verifier::external_body]
+            pub fn new(conf: Option<u8>, ctx: Option<&X509v3Context>, name: &str, value: &str) -> (r: Result<X509Extension, ErrorStack>)
+                ensures r matches Ok(e) ==> e.view@ == (ExtView::Custom { name: name@, value: value@ }) { unimplemented!() }
+        }
+        impl X509ReqBuilder {
+            #[verifier::external_body]
+            pub fn new() -> (r: Result<X509ReqBuilder, ErrorStack>) ensures r matches Ok(b) ==> b.view@ == empty_cert() { unimplemented!() }
+            #[verifier::external_body]
+            pub fn set_pubkey<T>(&mut self, k: &super::pkey::PKey<T>) -> (r: Result<(), ErrorStack>)
+                ensures r is Ok ==> final(self).view@ == (CertView { pubkey: Some(k.ident@), ..old(self).view@ }) { unimplemented!() }
+            #[verifier::external_body]
+            pub fn set_subject_name(&mut self, n: &X509Name) -> (r: Result<(), ErrorStack>)
+                ensures r is Ok ==> final(self).view@ == (CertView { subject: Some(n.view@), ..old(self).view@ }) { unimplemented!() }
+            #[verifier::external_body]
+            pub fn x509v3_context(&self, conf: Option<u8>) -> X509v3Context { unimplemented!() }
+            #[verifier::external_body]
+            pub fn add_extensions(&mut self, s: &super::stack::Stack<X509Extension>) -> (r: Result<(), ErrorStack>)
+                ensures r is Ok ==> final(self).view@ == (CertView { exts: old(self).view@.exts + s.v@.map_values(|e: X509Extension| e.view@), ..old(self).view@ }) { unimplemented!() }
+            #[verifier::external_body]
+            pub fn sign<T>(&mut self, k: &super::pkey::PKey<T>, d: super::hash::MessageDigest) -> (r: Result<(), ErrorStack>)
+                ensures r is Ok ==> final(self).view@ == (CertView { signed: Some((k.ident@, d.id)), ..old(self).view@ }) { unimplemented!() }
+            #[verifier::external_body]
+            pub fn build(self) -> (r: X509Req) ensures r.view == self.view { unimplemented!() }
+        }
+        impl X509Builder {
+            #[verifier::external_body]
+            pub fn new() -> (r: Result<X509Builder, ErrorStack>) ensures r matches Ok(b) ==> b.view@ == empty_cert() { unimplemented!() }
+            #[verifier::external_body]
+            pub fn set_version(&mut self, v: i32) -> (r: Result<(), ErrorStack>)
+                ensures r is Ok ==> final(self).view@ == (CertView { version: Some(v), ..old(self).view@ }) { unimplemented!() }
+            #[verifier::external_body]
+            pub fn set_serial_number(&mut self, s: &super::asn1::Asn1Integer) -> (r: Result<(), ErrorStack>)
+                ensures r is Ok ==> final(self).view@ == (CertView { serial_random_bits: Some(s.bits@), ..old(self).view@ }) { unimplemented!() }
+            #[verifier::external_body]
+            pub fn set_subject_name(&mut self, n: &X509Name) -> (r: Result<(), ErrorStack>)
+                ensures r is Ok ==> final(self).view@ == (CertView { subject: Some(n.view@), ..old(self).view@ }) { unimplemented!() }
+            #[verifier::external_body]
+            pub fn set_issuer_name(&mut self, n: &X509Name) -> (r: Result<(), ErrorStack>)
+                ensures r is Ok ==> final(self).view@ == (CertView { issuer: Some(n.view@), ..old(self).view@ }) { unimplemented!() }
+            #[verifier::external_body]
+            pub fn set_pubkey<T>(&mut self, k: &super::pkey::PKey<T>) -> (r: Result<(), ErrorStack>)
+                ensures r is Ok ==> final(self).view@ == (CertView { pubkey: Some(k.ident@), ..old(self).view@ }) { unimplemented!() }
+            #[verifier::external_body]
+            pub fn set_not_before(&mut self, t: &super::asn1::Asn1Time) -> (r: Result<(), ErrorStack>)
+                ensures r is Ok ==> final(self).view@ == (CertView { not_before: Some(t.t@), ..old(self).view@ }) { unimplemented!() }
+            #[verifier::external_body]
+            pub fn set_not_after(&mut self, t: &super::asn1::Asn1Time) -> (r: Result<(), ErrorStack>)
+                ensures r is Ok ==> final(self).view@ == (CertView { not_after: Some(t.t@), ..old(self).view@ }) { unimplemented!() }
+            #[verifier::external_body]
+            pub fn append_extension(&mut self, e: X509Extension) -> (r: Result<(), ErrorStack>)
+                ensures r is Ok ==> final(self).view@ == (CertView { exts: old(self).view@.exts.push(e.view@), ..old(self).view@ }) { unimplemented!() }
+            #[verifier::external_body]
+            pub fn x509v3_context(&self, a: Option<u8>, b: Option<u8>) -> X509v3Context { unimplemented!() }
+            #[verifier::external_body]
+            pub fn sign<T>(&mut self, k: &super::pkey::PKey<T>, d: super::hash::MessageDigest) -> (r: Result<(), ErrorStack>)
+                ensures r is Ok ==> final(self).view@ == (CertView { signed: Some((k.ident@, d.id)), ..old(self).view@ }) { unimplemented!() }
+            #[verifier::external_body]
+            pub fn build(self) -> (r: X509) ensures r.view == self.view { unimplemented!() }
+        }
+        pub mod extension {
+            use vstd::prelude::*;
+            use super::*;
+            verus! {
+            pub struct BasicConstraints { pub x: u8 }
+            impl BasicConstraints {
+                #[verifier::external_body] pub fn new() -> BasicConstraints { unimplemented!() }
+                #[verifier::external_body]
+                pub fn build(&self) -> (r: Result<X509Extension, ErrorStack>) ensures r matches Ok(e) ==> e.view@ == ExtView::BasicConstraints { unimplemented!() }
+            }
+            pub struct SubjectAlternativeName { pub dns: Ghost<Seq<Seq<char>>>, pub ip: Ghost<Seq<Seq<char>>> }
+            impl SubjectAlternativeName {
+                #[verifier::external_body]
+                pub fn new() -> (r: SubjectAlternativeName) ensures r.dns@ == Seq::<Seq<char>>::empty(), r.ip@ == Seq::<Seq<char>>::empty() { unimplemented!() }
+                #[verifier::external_body]
+                pub fn dns(&mut self, d: &str) -> (r: &mut SubjectAlternativeName)
+                    ensures *final(self) == *final(r), r.dns@ == old(self).dns@.push(d@), r.ip@ == old(self).ip@ { unimplemented!() }
+                #[verifier::external_body]
+                pub fn ip(&mut self, d: &str) -> (r: &mut SubjectAlternativeName)
+                    ensures *final(self) == *final(r), r.ip@ == old(self).ip@.push(d@), r.dns@ == old(self).dns@ { unimplemented!() }
+                #[verifier::external_body]
+                pub fn build(&self, ctx: &X509v3Context) -> (r: Result<X509Extension, ErrorStack>)
+                    ensures r matches Ok(e) ==> e.view@ == (ExtView::San { dns: self.dns@, ip: self.ip@ }) { unimplemented!() }
+            }
+            }
         }
         }
     }
